@@ -117,6 +117,16 @@ def check_nodelist(nodes):
         (it[0] != n.path() or it[1] is not n.value) for it, n in zip(items, nodes)
     ):
         return ("items-disagree", "items() == [(n.path(), n.value)]", "mismatch")
+    if len(nodes) > 1:
+        # the node list is a list: reordered in place it still describes its nodes
+        nodes.reverse()
+        try:
+            if nodes.paths() != [n.path() for n in nodes]:
+                return ("paths-disagree", "paths() == [n.path()] after the list was reversed in place", "mismatch")
+            if any((it[0] != n.path() or it[1] is not n.value) for it, n in zip(nodes.items(), nodes)):
+                return ("items-disagree", "items() == [(n.path(), n.value)] after the list was reversed in place", "mismatch")
+        finally:
+            nodes.reverse()
     return None
 
 
